@@ -2504,6 +2504,14 @@ impl ModuleGraph {
             js_module.fast_check = None;
           }
           js_module.maybe_types_dependency = None;
+          // the builder loads the source map as an external module
+          if let Some(url) = js_module
+            .maybe_source_map_dependency
+            .as_ref()
+            .and_then(|d| d.dependency.maybe_specifier())
+          {
+            seen_pending.add(url.clone());
+          }
           handle_dependencies(&mut seen_pending, &mut js_module.dependencies);
         }
         Module::Wasm(wasm_module) => {
